@@ -1,3 +1,4 @@
 import Props.Defs
+import Props.C12
 import Props.C13
 import Props.C14
